@@ -135,7 +135,7 @@ def bit(params):
     if l1 <= (1124 if cexp >= 6 else (1 << (cexp + 4))):
         return False       # sent unfragmented: no Block1 acknowledgement to misbehave in
     if mis[0] == "b1-wrong-num":
-        return mis[1] < nblocks - 1
+        return mis[1] < nblocks      # intermediate acknowledgements and the final one
     return True
 
 
